@@ -76,3 +76,140 @@ def c03(tier, seed):
 @prop('C13')
 def c13(tier, seed):
     return run_onestep('C13', tier, seed, ['mem'], ['mem', 'alt:/a', 'altalt'], ALL_OPS)
+
+
+@prop('C06')
+def c06(tier, seed):
+    from . import c06 as mod
+    ck = Check('C06', tier, seed)
+    prog = load_program()
+    ck.selftest = quick_selftest(prog, seed, 8 if tier == 'quick' else 100, kinds=['mem'])
+    la_max, lb_max = (5, 4) if tier == 'quick' else (7, 5)
+    cases = []
+    for la in range(la_max + 1):
+        for lb in range(lb_max + 1):
+            if la >= 5:
+                for first in mod.ALPHA:
+                    if first != 0xa9:
+                        cases.append({'la': la, 'lb': lb, 'first': first})
+            else:
+                cases.append({'la': la, 'lb': lb})
+    cases.sort(key=lambda c: -(c['la'] * 10 + c['lb']))
+    ck.bounds = {'arg_len': '0..%d bytes' % la_max, 'base_len': '0..%d bytes (canonical by assumption; results asserted canonical)' % lb_max,
+                 'alphabet': "'/', '.', 'a', 'b', U+00E9 (C3 A9); every byte a solver variable"}
+    ck.add(run_cases(prog, mod.run_case, cases), 'join/parent/filename/extension/root/is_root/== on symbolic base and argument strings')
+    ck.assumptions = COMMON_ASSUMPTIONS[:2] + ['base paths are canonical (inductive: every Ok result of join is asserted canonical)',
+                                                'characters other than / and . are represented by a, b and one two-byte character']
+    ck.rule = 'a state = one (|base|, |arg|[, first byte]) class with all bytes symbolic; transitions = execution paths through join_internal and the observers; non-trivial = |arg| > 0'
+    return ck.finish(prog)
+
+
+# ------------------------------------------------------------------------------------------ overlay
+
+def ovl_cases(universe, nlayers, props_, seed, ncfg=None, k1_ops=None, k2=0, k3=0, removal_first=False, max_nodes=None):
+    """cases for overlay.run_history_case: per layer configuration a list of histories"""
+    from . import overlay
+    u = UNIVERSES[universe]()
+    cfgs = overlay.layer_configs(u, nlayers, max_nodes=max_nodes)
+    rng = random.Random(seed * 7919 + nlayers)
+    if ncfg is not None and len(cfgs) > ncfg:
+        rng.shuffle(cfgs)
+        cfgs = cfgs[:ncfg]
+    vars_ = u.vars
+    real = [v for v in vars_ if v != 'R']
+    cases = []
+    for cfg in cfgs:
+        present = [v for v, k, s in cfg]
+        hs = []
+        for op in (k1_ops or []):
+            for v in vars_:
+                hs.append([(op, v)])
+        mut_first = ['remove_file', 'remove_dir', 'remove_dir_all'] if removal_first else \
+            ['remove_file', 'remove_dir', 'remove_dir_all', 'write', 'create_dir', 'append', 'create_dir_all']
+        two = [[(o1, v1), (o2, v2)] for o1 in mut_first for v1 in real for o2 in overlay.HIST_OPS for v2 in real]
+        rng.shuffle(two)
+        hs += two[:k2]
+        three = []
+        for _ in range(k3):
+            v1 = rng.choice(present) if present else rng.choice(real)
+            o1 = rng.choice(['remove_file', 'remove_dir', 'remove_dir_all'])
+            o2, v2 = rng.choice(['write', 'create_dir', 'create_dir_all', 'append']), rng.choice([v1] + real)
+            o3, v3 = rng.choice(overlay.HIST_OPS), rng.choice([v1, v2] + real)
+            three.append([(o1, v1), (o2, v2), (o3, v3)])
+        hs += three
+        cases.append({'universe': universe, 'nlayers': nlayers, 'cfg': cfg, 'histories': hs, 'props': props_})
+    return cases
+
+
+OVL_ASSUMPTIONS = COMMON_ASSUMPTIONS[:4] + [
+    'initial layers are type-compatible (a path present in several layers has the same type in each); type conflicts between layers are outside the bound',
+    'overlay-reserved names (.whiteout, *_wo inside it) are not used as user names except the *_wo sibling names of universe UOW',
+    'lower layers are compared through their own observers (exists/metadata/read_dir/read); access times are not compared',
+]
+
+
+def run_overlay(pid, tier, seed, plan, extra_props=()):
+    from . import overlay
+    ck = Check(pid, tier, seed)
+    prog = load_program()
+    ck.selftest = quick_selftest(prog, seed, 10 if tier == 'quick' else 120, kinds=['ovl', 'ovl3', 'altovl', 'ovlalt'])
+    props_ = [pid] + list(extra_props)
+    cases = []
+    desc = []
+    for (universe, nlayers, kw) in plan:
+        cs = ovl_cases(universe, nlayers, props_, seed, **kw)
+        cases += cs
+        desc.append('%s x %d layers: %d layer configurations, %d histories' % (universe, nlayers, len(cs), sum(len(c['histories']) for c in cs)))
+    cases.sort(key=lambda c: -len(c['histories']))
+    ck.bounds = {'plan': desc, 'file_bytes': '0..2 symbolic per file and layer', 'written_bytes': '1 symbolic',
+                 'history_length': 'k<=%d' % (3 if any(kw.get('k3') for _, _, kw in plan) else 2)}
+    ck.add(run_cases(prog, overlay.run_history_case, cases), 'overlay bounded histories from symbolic initial layers')
+    ck.assumptions = OVL_ASSUMPTIONS
+    ck.rule = 'a state = one assignment of union-tree nodes to layer sets (layer configuration) with symbolic bytes; a transition = one execution path of one history; non-trivial = at least one entry in a lower layer'
+    return ck.finish(prog)
+
+
+@prop('C09')
+def c09(tier, seed):
+    from . import overlay
+    if tier == 'quick':
+        plan = [('UO3', 2, dict(k1_ops=overlay.HIST_OPS + overlay.OBS_OPS, k2=12)),
+                ('UO3', 3, dict(ncfg=40, k1_ops=overlay.HIST_OPS))]
+    else:
+        plan = [('UO3', 2, dict(k1_ops=overlay.HIST_OPS + overlay.OBS_OPS, k2=150, k3=40)),
+                ('UO3', 3, dict(ncfg=400, k1_ops=overlay.HIST_OPS + overlay.OBS_OPS, k2=20)),
+                ('UO4', 2, dict(ncfg=300, k1_ops=overlay.HIST_OPS, k2=20)),
+                ('UO3', 1, dict(k1_ops=overlay.HIST_OPS + overlay.OBS_OPS, k2=30)),
+                ('UO3', 4, dict(ncfg=150, k1_ops=overlay.HIST_OPS))]
+    return run_overlay('C09', tier, seed, plan)
+
+
+@prop('C10')
+def c10(tier, seed):
+    from . import overlay
+    rm = ['remove_file', 'remove_dir', 'remove_dir_all']
+    if tier == 'quick':
+        plan = [('UO3', 2, dict(k1_ops=rm, k2=14, k3=6, removal_first=True)),
+                ('UOW', 2, dict(ncfg=60, k1_ops=rm, k2=8, removal_first=True)),
+                ('UO3', 3, dict(ncfg=40, k1_ops=rm, k2=6, removal_first=True))]
+    else:
+        plan = [('UO3', 2, dict(k1_ops=rm, k2=105, k3=60, removal_first=True)),
+                ('UOW', 2, dict(ncfg=500, k1_ops=rm, k2=40, k3=10, removal_first=True)),
+                ('UO4', 2, dict(ncfg=300, k1_ops=rm, k2=30, k3=10, removal_first=True)),
+                ('UO3', 3, dict(ncfg=400, k1_ops=rm, k2=30, k3=10, removal_first=True)),
+                ('UO3', 4, dict(ncfg=150, k1_ops=rm, k2=10, removal_first=True))]
+    return run_overlay('C10', tier, seed, plan)
+
+
+@prop('C08')
+def c08(tier, seed):
+    from . import overlay
+    if tier == 'quick':
+        plan = [('UO3', 2, dict(k1_ops=overlay.HIST_OPS + overlay.OBS_OPS, k2=6)),
+                ('UO3', 3, dict(ncfg=40, k1_ops=overlay.HIST_OPS))]
+    else:
+        plan = [('UO3', 2, dict(k1_ops=overlay.HIST_OPS + overlay.OBS_OPS, k2=80, k3=20)),
+                ('UO3', 3, dict(ncfg=400, k1_ops=overlay.HIST_OPS + overlay.OBS_OPS, k2=20)),
+                ('UO4', 2, dict(ncfg=300, k1_ops=overlay.HIST_OPS, k2=20)),
+                ('UO3', 4, dict(ncfg=150, k1_ops=overlay.HIST_OPS, k2=5))]
+    return run_overlay('C08', tier, seed, plan)
